@@ -1,5 +1,4 @@
 import BlockCiphers.Prelude.Bytes
-import BlockCiphers.Impl.Xtea
 /-
 Registry of cipher models used by the driver and by the "for every cipher type" statements.
 -/
@@ -29,20 +28,7 @@ structure CipherModel where
 def liftBlock (n : Nat) (f : BitVec (8 * n) → BitVec (8 * n)) : Bytes → Bytes :=
   fun b => unpackBE n (f (packBE n b))
 
-def xteaModel : CipherModel where
-  name := "Xtea"
-  blockLen := 8
-  keySize := 16
-  new := fun k =>
-    if Xtea.accepts k.length then
-      let key := Xtea.keyOfBits (packBE 16 k)
-      some { enc := some (liftBlock 8 (Xtea.encrypt key)), dec := some (liftBlock 8 (Xtea.decrypt key)) }
-    else none
-  debug := "XTEA { ... }"
-  algName := "XTEA"
-
-def allCiphers : List CipherModel := [xteaModel]
-
-def findCipher (n : String) : Option CipherModel := allCiphers.find? (fun c => c.name == n)
+/-- handler of a special operation line (first token, rest of tokens) -/
+abbrev Special := String × (List String → String)
 
 end BC
